@@ -277,6 +277,46 @@ def run(prog, chk):
         chk.note("File::copy returns false on %d path(s) without closing the source descriptor (descriptor leak; not a clause of C19)" % len(early))
     open_flag_table(prog, chk, "C19.g")
     position_preserving_probe(prog, chk, "C19.h")
+    copy_destination_flags(prog, chk, "C19.i")
+
+
+def copy_destination_flags(prog, chk, rid):
+    """File::copy writes the source into the destination with sendfile(): the destination has to be opened for writing, created when
+    missing, emptied when it exists (O_TRUNC) - or refused when it exists and the caller asked for that (O_EXCL)"""
+    chk.rule(rid, "FIN/TBL: for failIfExists in {false, true} File::copy opens its destination with O_CREAT, write access, O_EXCL exactly "
+                  "when failIfExists, and O_TRUNC whenever an existing file may be opened", floor=1)
+    f = ffn(prog, "File::copy", "File.cpp")
+    where = "%s:%s" % (f.file, f.line)
+    dest = f.params[1]["n"] if len(f.params) > 1 else None
+    flagp = next((p_["n"] for p_ in f.params if p_.get("t") == "bool"), None)
+    opens = [c for c in callsn(f, "open") if q.call_args(f, c) and dest and re.search(r"\b%s\b" % re.escape(dest), f.r(q.call_args(f, c)[0]))]
+    if not opens or flagp is None:
+        chk.ok(rid, f, "File::copy does not open its destination with open(2) here", where, "no such call", nontrivial=False)
+        return
+    O_WRONLY, O_RDWR, O_CREAT, O_EXCL, O_TRUNC, O_APPEND = 1, 2, 0o100, 0o200, 0o1000, 0o2000
+    for c in opens:
+        bad = None
+        for v in (0, 1):
+            fl = fin.value_at(f, q.call_args(f, c)[1], c, {flagp: v})
+            if fl is None:
+                bad = (v, "the flags are not determined by failIfExists")
+                break
+            if not fl & O_CREAT:
+                bad = (v, "O_CREAT is missing: a destination that does not exist is not created")
+            elif not (fl & 3) in (O_WRONLY, O_RDWR):
+                bad = (v, "the destination is not opened for writing")
+            elif bool(fl & O_EXCL) != bool(v):
+                bad = (v, "O_EXCL is %s" % ("missing: an existing destination is overwritten although the caller forbade it" if v else "set: copying over an existing file fails"))
+            elif not v and not fl & O_TRUNC:
+                bad = (v, "O_TRUNC is missing: a longer old destination keeps its tail behind the copied bytes")
+            elif fl & O_APPEND:
+                bad = (v, "O_APPEND is set: the copy lands behind the old contents")
+            if bad:
+                break
+        if bad:
+            chk.bad(rid, f, "copy-destination-flags:failIfExists=%d" % bad[0], f.where(c), "File::copy(.., failIfExists=%s): %s" % ("true" if bad[0] else "false", bad[1]), evals=2)
+        else:
+            chk.ok(rid, f, "destination opened create + write, O_EXCL iff failIfExists, O_TRUNC otherwise", f.where(c), "flags evaluated for both values of failIfExists", evals=2)
 
 
 def position_preserving_probe(prog, chk, rid):
